@@ -142,6 +142,19 @@ CHECKS = {
         'is symbolic and unbounded. Assumed: the regex crate implements its documented syntax (our RegLan translation of the emitted subset is cross-checked against the real '
         'crate on random subjects every run); Regex::new / is_match uninterpreted in the evaluator family. Subjects exclude newline and `/`.',
    technique='regex text of the real translators -> z3 RegLan equivalence (unbounded subjects); MIR symbolic execution + z3 for the evaluator arm'),
+ 'C20': dict(
+   level='translation_validation', design_ref='DESIGN.md §2.3, §5 C20', engine='relang',
+   text='(translate, Engine C) for every pattern of a bounded grammar (the shapes of the property statement plus all patterns of length <= 2/3 over letters, . * ? / and '
+        'metacharacters) the regex compiled by the real convert_dockerignore_glob / convert_hgignore_glob (native driver over the tree sources) is parsed into a z3 regular '
+        'language (search semantics) and z3 decides over all paths below the root whether it differs from the reference root/(dir/)* G(pattern) <anything>, G mapping ** / * / ? '
+        'to any run / run within a component / one character of a component and everything else literally. (fold, Engine B) the real matches_dockerignore_filter / '
+        'matches_hgignore_filter over <= 3/4 filters with symbolic verdicts and negation flags: docker = the last matching pattern decides, hg = any match. (precedence) the '
+        'head of the real list_search_results with symbolic Option<bool> root options and configuration defaults: each mechanism is applied iff option.unwrap_or(config.unwrap_or(false)).',
+   note=TRUST + 'Not covered: gitignore verdicts (one call into libgit2, FFI) — only the option precedence for git is; the structural envelope of fselect\'s ignore regexes (a pattern '
+        'applies at any depth and to everything below / after a match — e.g. `*.log` also hides `x.logs`) is taken as given, so the claim is about the translation of the pattern '
+        'text, not about full agreement with the tools; parse_hgignore / parse_dockerignore line handling (comments, blank lines, `syntax:` sections, `!`) and the upstream search '
+        'for the ignore file. Pattern side enumerated, path side symbolic and unbounded.',
+   technique='regex text of the real translators -> z3 RegLan equivalence (unbounded paths); MIR symbolic execution + z3 for fold and precedence'),
 }
 REASON_TODO = 'check not built yet in this session (planned: see DESIGN.md §5); not claimed until it exists'
 NA = {}
